@@ -303,6 +303,25 @@ pub fn judge_c13(script: &SockScript, l: &SockLog, check_order: bool) -> Vec<SFi
             v.push(sf("C12", "isolation", "isolation/accepted-stream-carries-foreign-bytes", "an accepted stream delivered bytes that are not its connector's coded payload".to_string()));
         }
     }
+    if !check_order && !ambiguous && l.streams_at_end.get(1).copied().unwrap_or(0) == 0 {
+        // under a connection limit the reference does not know when slots free up; but at the end of the
+        // run every connection is gone and every slot is free: an accept that is still pending while a
+        // request it is owed (from a silent peer, which never goes away) was neither handed out nor
+        // refused has been starved
+        for (j, want) in &expected {
+            let still_pending = matches!(l.accepts[*j].done, Done::Pending);
+            let handed_elsewhere = actual.values().any(|w| w == want);
+            let was_refused = refused.iter().any(|(w, _, _)| w == want);
+            if still_pending && !handed_elsewhere && !was_refused && matches!(want, Who::Fake(_)) {
+                v.push(sf(
+                    "C13",
+                    "fifo-order",
+                    "accept/starved-after-the-limit-was-freed",
+                    format!("accept #{j} is still pending at the end of the run, when every connection is gone and every slot is free, although request {want:?} had been queued for it"),
+                ));
+            }
+        }
+    }
     if check_order && !ambiguous {
         for (j, want) in &expected {
             match actual.get(j) {
@@ -495,6 +514,64 @@ pub fn explore_c13(ctx: &Ctx, name: &str, alpha: &[A13], len: usize, max_live: u
     out.parts.push(p);
 }
 
+/// Connections in both directions between two sockets whose first connection ids are equal / adjacent
+/// (so that the id chooser has to step over the peer's connections), overlapping connects to one peer:
+/// every connect with a waiting accept completes and each pair is wired to each other.
+fn both_directions_c13(ctx: &Ctx, out: &mut Outcome) {
+    let alpha: Vec<Ev> = vec![Ev::Connect { from: 0, to: 1 }, Ev::Connect { from: 1, to: 0 }, Ev::Accept { sock: 0 }, Ev::Accept { sock: 1 }, Ev::Settle];
+    let len = ctx.tier.pick(6usize, 7usize);
+    let mut p = Part::fe("sock:c13-both-directions");
+    let mut seen = std::collections::HashSet::new();
+    for bases in [[500u16, 500u16], [500, 501], [501, 500], [500, 502], [500, 498]] {
+        let cfgs = cfg_n(2, 64, &bases);
+        let mut seqs: Vec<Vec<usize>> = vec![];
+        let mut frontier: Vec<Vec<usize>> = vec![vec![]];
+        for _ in 0..len {
+            let mut next = vec![];
+            for s in &frontier {
+                for a in 0..alpha.len() {
+                    let mut n = s.clone();
+                    n.push(a);
+                    next.push(n);
+                }
+            }
+            seqs.extend(next.iter().cloned());
+            frontier = next;
+        }
+        // connects back to back in one instant where they are adjacent in the sequence
+        let cases: Vec<Vec<(Ev, bool)>> = seqs.iter().map(|s| s.iter().enumerate().map(|(k, i)| (alpha[*i].clone(), k > 0 && *i < 2 && s[k - 1] < 2)).collect()).collect();
+        let results: Vec<(Vec<SFinding>, u64)> = cases
+            .par_iter()
+            .map(|ev| {
+                let script = SockScript { cfgs: cfgs.clone(), events: ev.clone(), rng_seed: 1, latency_us: 10_000, plan: vec![] };
+                let l = run(&script);
+                let fs: Vec<SFinding> = judge_c12(&script, &l)
+                    .into_iter()
+                    .filter(|f| matches!(f.signature.as_str(), "ids/receive-key-shared-by-two-connections" | "connect/never-completes-under-concurrency" | "connect/fails-under-concurrency" | "isolation/two-streams-carry-the-same-connection"))
+                    .map(|f| sf("C13", "pairing", format!("pairing/{}", f.signature.split('/').nth(1).unwrap_or("")), f.detail))
+                    .collect();
+                (fs, l.trace_hash)
+            })
+            .collect();
+        for (ev, (fs, h)) in cases.iter().zip(results) {
+            p.evaluations += 1;
+            if seen.insert(h) {
+                p.distinct_nontrivial += 1;
+            }
+            for f in fs {
+                if !out.violations.iter().any(|v| v.signature == f.signature) {
+                    let script = SockScript { cfgs: cfgs.clone(), events: ev.clone(), rng_seed: 1, latency_us: 10_000, plan: vec![] };
+                    out.violations.push(Violation { property: f.property.to_string(), monitor: f.monitor.to_string(), signature: f.signature.clone(), detail: format!("[both-directions ids {:?} events {:?}] {}", bases, ev, f.detail), replay: replay_json(&script, "c12") });
+                }
+            }
+        }
+    }
+    p.distinct_outcomes = p.distinct_nontrivial.min(1000);
+    p.bound = format!("all sequences of <= {len} events over connects in both directions, accepts on both sockets and a drain, adjacent connects issued in one instant, x 5 pairs of first connection ids (equal, +-1, +-2)");
+    p.samples.push(json!(["Connect 1->0", "Accept 0", "Connect 0->1", "Connect 0->1", "Accept 1", "Accept 1"]));
+    out.parts.push(p);
+}
+
 pub fn c13(ctx: &Ctx) -> Outcome {
     let mut out = Outcome::default();
     use A13::*;
@@ -504,6 +581,9 @@ pub fn c13(ctx: &Ctx) -> Outcome {
     explore_c13(ctx, "sock:c13-backlog", &[SynBurst33, SynFresh, Accept, Settle], ctx.tier.pick(5, 6), 64, false, &[1], &mut out);
     explore_c13(ctx, "sock:c13-slots", &[ConnectFake, ConnectCancelLast, ConnectCancelFirst, SynAckForLastFake], ctx.tier.pick(8, 9), 64, false, &[1], &mut out);
     explore_c13(ctx, "sock:c13-limit2", &[SynFresh, Connect, Accept, AcceptCancelLast, CloseOldest, Settle], ctx.tier.pick(6, 7), 2, false, &[1], &mut out);
+    // the limit reached and freed with a request and an accept both parked (nothing else happens afterwards)
+    explore_c13(ctx, "sock:c13-limit1", &[SynFresh, Accept, AcceptCancelLast, CloseOldest, Settle], ctx.tier.pick(7, 8), 1, false, &[1], &mut out);
+    both_directions_c13(ctx, &mut out);
     let seeds: Vec<u64> = (0..ctx.tier.pick(8u64, 32u64)).collect();
     explore_c13(ctx, "sock:c13-ties", &[SynFreshNow, Accept, AcceptCancelLast, Settle], ctx.tier.pick(6, 7), 64, true, &seeds, &mut out);
     out.rule = "C13: every sequence of socket events up to the stated length (events separated by a drain, or one adjacent pair in the same instant under every select! seed of a set); reference = two FIFO queues (pending requests <= 32, pending acceptors); distinct_nontrivial = executions with distinct timed traces".into();
@@ -723,6 +803,10 @@ pub fn c12(ctx: &Ctx) -> Outcome {
             let bases = [(500 + da) as u16, (500 + db) as u16];
             families.push((format!("sock:c12-pair-live{max_live}-ids{da}/{db}"), cfg_n(2, max_live, &bases), alpha2.clone(), len));
         }
+    }
+    // first connection ids at the 16-bit wrap
+    for (a, b) in [(0xffffu16, 0xffffu16), (0xfffe, 0xffff), (0xffff, 0), (0xfffd, 0xffff), (0, 0xfffe)] {
+        families.push((format!("sock:c12-pair-wrap-ids{a:#x}/{b:#x}"), cfg_n(2, 64, &[a, b]), alpha2.clone(), ctx.tier.pick(5, 6)));
     }
     // several connects to the same peer in flight, some of them given up: the others must not notice
     let alpha_cancel: Vec<Ev> = vec![Ev::Connect { from: 0, to: 1 }, Ev::ConnectCancel(0), Ev::ConnectCancel(1), Ev::Accept { sock: 1 }, Ev::Settle];
@@ -1083,9 +1167,38 @@ pub fn hostile_socket(ctx: &Ctx) -> Outcome {
             }
         }
     }
+    // a connection request from the other address family (with a spare accept waiting for it) at every small
+    // link MTU the options accept: header sizes differ per family, the service must go on
+    for link_mtu in [49usize, 58, 60, 68, 69, 80] {
+        let mut cfgs = cfgs.clone();
+        for c in cfgs.iter_mut() {
+            c.link_mtu = link_mtu;
+        }
+        let mut ev = vec![(Ev::Accept { sock: 1 }, false), (Ev::RawSynV6 { to: 1, fake: 90 }, false), (Ev::Settle, false)];
+        ev.extend(base_events(None));
+        let s = SockScript { cfgs: cfgs.clone(), events: ev, rng_seed: 1, latency_us: 10_000, plan: vec![] };
+        let l = run(&s);
+        p.transitions += 1;
+        seen.insert(l.trace_hash);
+        let ok_connects = l.connects.iter().filter(|c| matches!(c.done, Done::Ok { payload_ok: true, .. })).count();
+        let v6_accepted = l.accepts.iter().any(|a| matches!(&a.done, Done::Ok { remote, .. } if remote.is_ipv6()));
+        if let Some(pm) = &l.panicked {
+            out.violations.push(Violation { property: "C10".into(), monitor: "panic".into(), signature: "panic/in-socket-run".into(), detail: pm.clone(), replay: replay_json(&s, "hostile") });
+        } else if ok_connects < 3 || !v6_accepted {
+            if !out.violations.iter().any(|v| v.signature == "contamination/request-from-the-other-address-family-breaks-the-service") {
+                out.violations.push(Violation {
+                    property: "C10".into(),
+                    monitor: "cross-contamination".into(),
+                    signature: "contamination/request-from-the-other-address-family-breaks-the-service".into(),
+                    detail: format!("link MTU {link_mtu}: after a SYN from an IPv6 address (a spare accept was waiting for it: accepted = {v6_accepted}) only {ok_connects} of the 3 later connects completed with intact payloads"),
+                    replay: replay_json(&s, "hostile"),
+                });
+            }
+        }
+    }
     p.states = seen.len() as u64;
     p.distinct_outcomes = seen.len() as u64;
-    p.bound = "3 connections on one socket pair; 10 kinds of stray / malformed / hostile datagram to either socket at every position of the event script; differential against the run without it".into();
+    p.bound = "3 connections on one socket pair; 10 kinds of stray / malformed / hostile datagram to either socket at every position of the event script; differential against the run without it; plus a connection request from an IPv6 address at link MTUs {49, 58, 60, 68, 69, 80}".into();
     p.samples.push(json!({"stray": "RESET with a live connection's id from a foreign address", "position": 4}));
     let _ = ctx;
     out.parts.push(p);
